@@ -117,8 +117,8 @@ def _optional_numeric_params(fn: ast.FunctionDef) -> set[str]:
             rest = [p for p in parts if p != "None"]
             if rest and all(any(p == t or p.startswith(t) for t in _NUMERIC_ANN) for p in rest):
                 out.add(arg.arg)
-        elif parts and all(p in ("int", "float") for p in parts) and arg.arg in ("axis", "start", "mask_value", "offset"):
-            out.add(arg.arg)
+        elif parts and all(p in ("int", "float") for p in parts):
+            out.add(arg.arg)      # a plain numeric parameter: 0 is a value like any other
     return out
 
 
